@@ -43,6 +43,7 @@
 #include <thread>
 #include <unistd.h>
 #include <unordered_map>
+#include <unordered_set>
 #include <utility>
 
 namespace iora
@@ -790,6 +791,12 @@ private:
 
   void handleFdEvent(int fd, std::uint32_t events)
   {
+    // Stale event of this epoll_wait() batch: the fd was closed since and its
+    // number may already belong to a new socket (see TcpEngine::handleFdEvent).
+    if (_fdsClosedThisIteration.count(fd) != 0)
+    {
+      return;
+    }
     auto it = _tags.find(fd);
     if (it == _tags.end())
       return;
@@ -917,6 +924,7 @@ private:
     std::vector<epoll_event> evs((size_t)_config.epollMaxEvents);
     while (_running.load())
     {
+      _fdsClosedThisIteration.clear();
       int n = ::epoll_wait(_epollFd, evs.data(), (int)evs.size(), -1);
       if (n < 0)
       {
@@ -954,6 +962,7 @@ private:
     {
       try
       {
+        _fdsClosedThisIteration.clear();
         _batchProcessor->processBatchWithSpecialFDs(
           _epollFd, _eventFd, _timerFd,
           // generalHandler — handles session/listener fds
@@ -1619,6 +1628,7 @@ private:
     {
       delEpoll(fd);
       ::close(fd);
+      _fdsClosedThisIteration.insert(fd);
       _tags.erase(fd);
     }
     else
@@ -1655,6 +1665,7 @@ private:
   {
     delEpoll(lst->fd);
     ::close(lst->fd);
+    _fdsClosedThisIteration.insert(lst->fd);
     _tags.erase(lst->fd);
   }
 
@@ -1737,6 +1748,9 @@ private:
     }
     _running.store(false);
   }
+
+  // fds closed since the current epoll_wait() returned (I/O thread only)
+  std::unordered_set<int> _fdsClosedThisIteration;
 
   struct AtomicStats
   {
